@@ -40,7 +40,11 @@ def bibparse (j : Json) : Except String Json := do
       let l ← a.toList.mapM jsonToStr
       pure (some l)
     | _ => pure none
-  pure (obj [("out", resultJ (parseBib text strict wanted))])
+  let both := match j.getObjVal? "both" with | .ok (Json.bool true) => true | _ => false
+  if both then
+    pure (obj [("out", obj [("capture", resultJ (parseBib text false wanted)), ("strict", resultJ (parseBib text true wanted))])])
+  else
+    pure (obj [("out", resultJ (parseBib text strict wanted))])
 
 def handlers : List (String × (Json → Except String Json)) := [("bibparse", bibparse)]
 
